@@ -53,6 +53,7 @@ type W struct {
 	// that a hand-placed hook and the instrumented one at the same site
 	// yield once, not twice
 	justHooked uintptr
+	sleepUntil int // delay injection: not schedulable before this controller step
 }
 
 // Sched is the controller.
@@ -79,12 +80,20 @@ type Sched struct {
 	prio    []int // per worker
 	change  map[int]bool
 	low     int
+	// delay injection (a quarter of the runs): when a worker parks, with a
+	// small probability it is put to sleep for 5-60 controller steps while the
+	// others go on - long stalls at one point, which independent coin flips at
+	// every yield point make exponentially unlikely
+	stallPm int
 }
 
 // New creates a scheduler; the pre-emption rate is a per-run knob.
 func New(c *sim.Ctx) *Sched {
 	s := &Sched{C: c, Sites: map[int]int{}, MaxSteps: 4000}
 	s.preempt = []int{30, 150, 400, 800}[c.Weighted(2, 3, 3, 1)]
+	if c.Chance(250) && os.Getenv("VERIF_NOSTALL") == "" {
+		s.stallPm = []int{15, 40, 100}[c.Draw(3)]
+	}
 	if c.Chance(100) && os.Getenv("VERIF_NOPCT") == "" {
 		s.pct = true
 		s.pctDeep = c.Draw(4)
@@ -293,6 +302,18 @@ func (s *Sched) Run() {
 			}
 			en = append(en, w)
 		}
+		if s.stallPm > 0 {
+			// sleeping workers sit out, unless nobody else can run
+			var awake []*W
+			for _, w := range en {
+				if w.sleepUntil <= s.step {
+					awake = append(awake, w)
+				}
+			}
+			if len(awake) > 0 {
+				en = awake
+			}
+		}
 		if unfinished == 0 {
 			break
 		}
@@ -353,6 +374,10 @@ func (s *Sched) Run() {
 			pick.blocked = v>>32 != 0
 			if !pick.blocked {
 				progressAt = s.step
+			}
+			if s.stallPm > 0 && !pick.blocked && c.Chance(s.stallPm) {
+				pick.sleepUntil = s.step + []int{5, 15, 30, 60}[c.Draw(4)]
+				c.NonTrivial()
 			}
 		case msgFinished:
 			pick.finished = true
